@@ -217,6 +217,27 @@ def _entries():
     add('objective redefinition (minmax/minsup again)',
         lambda a, b: (a['m'].minmax(a['x'].sum(), a['uset']) if a['front'] == 'ro'
                       else a['m'].minsup(a['x'].sum(), a['amb'])))
+    # a first objective that is numerically zero (feasibility models) is an objective too
+    def redef_zero(a, first, second, zero):
+        from rsome import ro as ro_, dro as dro_
+        m_ = ro_.Model() if a['front'] == 'ro' else dro_.Model(2)
+        x_ = m_.dvar(2)
+        z_ = m_.rvar(2)
+        m_.st(x_ >= 0, x_ <= 1)
+        if first in ('min', 'max'):
+            getattr(m_, first)(zero)
+        elif a['front'] == 'ro':
+            getattr(m_, first)(zero, z_ >= -1, z_ <= 1)
+        else:
+            fs_ = m_.ambiguity()
+            fs_.suppset(z_ >= -1, z_ <= 1)
+            getattr(m_, {'minmax': 'minsup', 'maxmin': 'maxinf'}[first])(zero, fs_)
+        getattr(m_, second)(x_.sum())          # has to raise
+    for first_ in ('min', 'max', 'minmax', 'maxmin'):
+        for second_ in ('min', 'max'):
+            for zero_, zn_ in ((0, 'int 0'), (0.0, 'float 0'), (np.float64(0.0), 'np.float64 0')):
+                add('objective redefinition after %s(%s), then %s' % (first_, zn_, second_),
+                    lambda a, b, f_=first_, s_=second_, z0_=zero_: redef_zero(a, f_, s_, z0_))
     add('ambiguity() after constraints', lambda a, b: a['m'].ambiguity(), fronts1=['dro'],
         fronts2=['dro'])
     return E
